@@ -1139,12 +1139,24 @@ class Executor(object):
                 b = list(t.encode('utf-8'))
             else:
                 b = self.slice_cells(st, t)
+            if s.obj is not None and isinstance(s.len, int) and len(a) + len(b) <= s.cap:
+                # Go semantics: enough capacity -> the elements are written into the existing backing array
+                if len(b) > 0:
+                    if self.watch is not None and not (isinstance(s.obj, str) and self.alloc_epoch.get(s.obj, 0) >= self.watch):
+                        key = (s.obj, ins.get('pos', ''))
+                        if key not in self.effect_seen:
+                            self.effect_seen.add(key)
+                            self.oblige('effect', st, True, 'store to memory that existed before the call (append into spare capacity of a caller slice)', ins.get('pos', ''))
+                    arr = tree_get(st.heap[s.obj], s.path)
+                    newarr = list(arr)
+                    newarr[s.off + s.len:s.off + s.len + len(b)] = [force(x) if isinstance(x, LazySel) else x for x in b]
+                    st.heap[s.obj] = tree_set(st.heap[s.obj], s.path, newarr)
+                return Slice(s.obj, s.path, s.off, s.len + len(b), s.cap)
             new = list(a) + list(b)
-            if len(a) + len(b) <= s.cap and s.obj is not None and len(b) > 0:
-                self.notes.add('append within capacity modelled as copy (aliasing with the old backing array not modelled)')
             oid = self.new_obj(st, new)
             self.alloc_epoch[oid] = self.nobj
-            return Slice(oid, (), 0, len(new), max(len(new), s.cap))
+            # growth policy of the runtime is not modelled: the new capacity is just what is needed (or the old one if larger)
+            return Slice(oid, (), 0, len(new), max(len(new), 2 * s.cap if s.cap else len(new)))
         if name == 'copy':
             d, s = args
             if isinstance(s, str):
